@@ -39,15 +39,9 @@ func (p Params) Validate() error {
 		return errors.New("confirmation number can't set to zero(mempool txs are not reliable)")
 	}
 
-	if p.DepositTaxRate > 0 {
-		if p.MaxDepositTax == 0 || p.DepositTaxRate >= MaxTaxBP {
-			return fmt.Errorf("invalid deposit tax: DepositTaxRate(%d) MaxDepositTax(%d)",
-				p.DepositTaxRate, p.MaxDepositTax)
-		}
-		if p.MaxDepositTax > 1e8 {
-			return fmt.Errorf("MaxDepositTax is too large: %d", p.MaxDepositTax)
-		}
-	} else if p.MaxDepositTax != 0 {
+	// the same rule as the deposit tax update from the execution layer
+	// any MaxDepositTax is valid, zero means the tax is not capped
+	if p.DepositTaxRate >= MaxTaxBP {
 		return fmt.Errorf("invalid deposit tax: DepositTaxRate(%d) MaxDepositTax(%d)",
 			p.DepositTaxRate, p.MaxDepositTax)
 	}
